@@ -26,14 +26,14 @@ theorem foldlM_sfSame {α : Type} (f : Mid → α → VM Mid) (hstep : ∀ b a b
     exact (hstep _ _ _ h1).trans (ih _ _ h2)
 
 theorem sfSame_putSc (ms : Mid) (id : Id) (f : ScDiff → ScDiff) : SfSame ms (ms.putSc id f) :=
-  ⟨putSc_sfes _ _ _, putSc_base _ _ _⟩
+  ⟨putSc_sfes _ _ _, putSc_base_c1 _ _ _⟩
 theorem sfSame_putFc1 (ms : Mid) (id : Id) (f : Fc1Diff → Fc1Diff) : SfSame ms (ms.putFc1 id f) :=
-  ⟨putFc1_sfes _ _ _, putFc1_base _ _ _⟩
+  ⟨putFc1_sfes _ _ _, putFc1_base_c1 _ _ _⟩
 theorem sfSame_putFc2 (ms : Mid) (id : Id) (f : Fc2Diff → Fc2Diff) : SfSame ms (ms.putFc2 id f) :=
-  ⟨putFc2_sfes _ _ _, putFc2_base _ _ _⟩
+  ⟨putFc2_sfes _ _ _, putFc2_base_c1 _ _ _⟩
 
 theorem sfSame_spendSc (ms : Mid) (e : ScElem) : SfSame ms (ms.spendSc e) := by
-  unfold Mid.spendSc; exact ⟨putSc_sfes _ _ _, putSc_base _ _ _⟩
+  unfold Mid.spendSc; exact ⟨putSc_sfes _ _ _, putSc_base_c1 _ _ _⟩
 theorem sfSame_createSc (ms : Mid) (id : Id) (o : ScOut) (m : Nat) : SfSame ms (ms.createSc id o m) := by
   unfold Mid.createSc; exact sfSame_putSc _ _ _
 theorem sfSame_createImmatureSc (ms : Mid) (id : Id) (o : ScOut) : SfSame ms (ms.createImmatureSc id o) := by
@@ -50,27 +50,27 @@ theorem sfSame_payOuts (l : List (ScOut × Id)) : ∀ ms : Mid, SfSame ms (payOu
 theorem sfSame_createFc1 {ms ms' : Mid} {id : Id} {fc : Fc1} (h : ms.createFc1 id fc = .ok ms') : SfSame ms ms' := by
   unfold Mid.createFc1 at h; simp only [] at h
   rw [bind_eq_ok] at h; obtain ⟨p, _, h⟩ := h
-  cases h; exact ⟨putFc1_sfes _ _ _, putFc1_base _ _ _⟩
+  cases h; exact ⟨putFc1_sfes _ _ _, putFc1_base_c1 _ _ _⟩
 
 theorem sfSame_createFc2 {ms ms' : Mid} {id : Id} {fc : Fc2} (h : ms.createFc2 id fc = .ok ms') : SfSame ms ms' := by
   unfold Mid.createFc2 at h; simp only [] at h
   rw [bind_eq_ok] at h; obtain ⟨t, _, h⟩ := h
   rw [bind_eq_ok] at h; obtain ⟨p, _, h⟩ := h
-  cases h; exact ⟨putFc2_sfes _ _ _, putFc2_base _ _ _⟩
+  cases h; exact ⟨putFc2_sfes _ _ _, putFc2_base_c1 _ _ _⟩
 
 theorem sfSame_reviseFc1 (ms : Mid) (e : Fc1Elem) (rev : Fc1) : SfSame ms (ms.reviseFc1 e rev) := by
   unfold Mid.reviseFc1; exact sfSame_putFc1 _ _ _
 theorem sfSame_reviseFc2 (ms : Mid) (e : Fc2Elem) (rev : Fc2) : SfSame ms (ms.reviseFc2 e rev) := by
   unfold Mid.reviseFc2; exact sfSame_putFc2 _ _ _
 theorem sfSame_resolveFc1 (ms : Mid) (e : Fc1Elem) (v : Bool) : SfSame ms (ms.resolveFc1 e v) := by
-  unfold Mid.resolveFc1; exact ⟨putFc1_sfes _ _ _, putFc1_base _ _ _⟩
+  unfold Mid.resolveFc1; exact ⟨putFc1_sfes _ _ _, putFc1_base_c1 _ _ _⟩
 theorem sfSame_resolveFc2 {ms ms' : Mid} {e : Fc2Elem} {k : ResKind} (h : ms.resolveFc2 e k = .ok ms') : SfSame ms ms' := by
   unfold Mid.resolveFc2 at h
   split at h
   · split at h
     · cases h
-    · cases h; exact ⟨putFc2_sfes _ _ _, putFc2_base _ _ _⟩
-  · cases h; exact ⟨putFc2_sfes _ _ _, putFc2_base _ _ _⟩
+    · cases h; exact ⟨putFc2_sfes _ _ _, putFc2_base_c1 _ _ _⟩
+  · cases h; exact ⟨putFc2_sfes _ _ _, putFc2_base_c1 _ _ _⟩
 
 theorem sfSame_stepRes2 {ms ms' : Mid} {r : Resolution2} (h : stepRes2 ms r = .ok ms') : SfSame ms ms' := by
   unfold stepRes2 at h
